@@ -1,5 +1,6 @@
 from fractions import Fraction
 
+import json
 from harness import core, msggen, drvgen, drvcmp
 from harness.props import c10 as numref
 
@@ -80,6 +81,14 @@ class C07(core.Prop):
                 defn = drvgen.gen_definition(rng, "DEV%d" % k)
                 ops = [drvgen.random_op(rng, defn) for _ in range(rng.randint(0, 8))]
                 devices.append({"defn": defn, "ops": ops})
+            if rng.random() < 0.35:
+                # a second driver built from the same declarations (a subclass under another name): what one of
+                # them does to its properties and elements must not show in the other
+                k = rng.randrange(len(devices))
+                defn = json.loads(json.dumps(devices[k]["defn"]))
+                defn["name"] = devices[k]["defn"]["name"] + "T"
+                ops = [drvgen.random_op(rng, defn) for _ in range(rng.randint(0, 4))]
+                devices.append({"defn": defn, "ops": ops, "twin_of": k})
             target = rng.choice(devices)
             vecs = drvgen.all_vectors(target["defn"])
             name = rng.choice([None, None, rng.choice(sorted(vecs)), "NOPE", ""])
